@@ -5,6 +5,7 @@ from spacepackets.ecss.pus_17_test import Service17Tm
 from spacepackets.ccsds.spacepacket import SpacePacketHeader, PacketType, SequenceFlags
 from harness import pus_common as pc
 from harness.props.c02 import fcrc, _crc2, _enum, _mk_sph, _Owned, _canon, PATTERNS, NEAR_256
+from harness import core
 
 ID = "C03"
 ENUMS = [
@@ -45,14 +46,28 @@ def _fields(t):
 
 def _new(a):
     service, subservice, apid, seq, msgcnt, ref, dest, version = a[0]
-    return PusTm(service=service, subservice=subservice, timestamp=bytes(a[1]), source_data=bytes(a[2]), apid=apid,
-                 seq_count=seq, message_counter=msgcnt, space_time_ref=ref, destination_id=dest, packet_version=version)
+    # core.build: by keyword, and for every seventh case of a stream positionally in the documented order
+    return core.build(PusTm, service=service, subservice=subservice, timestamp=bytes(a[1]), source_data=bytes(a[2]), apid=apid,
+                      seq_count=seq, message_counter=msgcnt, space_time_ref=ref, destination_id=dest, packet_version=version)
 
 
 def _new17(a):
     apid, subservice, ssc, version, ref, dest = a[0]
-    return Service17Tm(apid=apid, subservice=subservice, timestamp=bytes(a[1]), ssc=ssc, source_data=bytes(a[2]),
-                       packet_version=version, space_time_ref=ref, destination_id=dest)
+    return core.build(Service17Tm, apid=apid, subservice=subservice, timestamp=bytes(a[1]), ssc=ssc, source_data=bytes(a[2]),
+                      packet_version=version, space_time_ref=ref, destination_id=dest)
+
+
+def _unpack(data, tl):
+    return core.build(PusTm.unpack, data=data, timestamp_len=tl)
+
+
+def _unpack17(data, tl):
+    return core.build(Service17Tm.unpack, data=data, timestamp_len=tl)
+
+
+def _sec_hdr(service, subservice, stamp, msgcnt, dest, ref):
+    return core.build(PusTmSecondaryHeader, service=service, subservice=subservice, timestamp=stamp, message_counter=msgcnt,
+                      dest_id=dest, spacecraft_time_ref=ref)
 
 
 def impl(op, a):
@@ -61,24 +76,24 @@ def impl(op, a):
     if op == 601:
         t = _new(a); raw = t.pack(); return [list(raw), [t.packet_len]]
     if op == 602:
-        return _fields(PusTm.unpack(bytes(a[0]), a[1][0]))
+        return _fields(_unpack(bytes(a[0]), a[1][0]))
     if op == 603:
-        return [list(PusTm.unpack(bytes(a[0]), a[1][0]).pack())]
+        return [list(_unpack(bytes(a[0]), a[1][0]).pack())]
     if op == 604:
         return [list(_new(a).to_space_packet().pack())]
     if op == 605:
-        t = _new(a); raw = t.pack(); u = PusTm.unpack(bytes(raw), len(a[1]))
+        t = _new(a); raw = t.pack(); u = _unpack(bytes(raw), len(a[1]))
         return [[int((u == t) and (t == u))]] + _fields(u)
     if op == 607:
         t = _new(a); t.tm_data = bytes(a[3]); raw = t.pack(); return [list(raw), [t.packet_len]]
     if op == 608:
-        s = PusTmSecondaryHeader.unpack(bytes(a[0]), a[1][0]); return [_sec(s), list(s.timestamp)]
+        s = core.build(PusTmSecondaryHeader.unpack, data=bytes(a[0]), timestamp_len=a[1][0]); return [_sec(s), list(s.timestamp)]
     if op == 609:
         return [[PusTm.service_from_bytes(bytearray(a[0]))]]
     if op == 610:
         t = _new17(a); raw = t.pack(); return [list(raw), [t.pus_tm.packet_len]]
     if op == 611:
-        return _fields(Service17Tm.unpack(bytes(a[0]), a[1][0]).pus_tm)
+        return _fields(_unpack17(bytes(a[0]), a[1][0]).pus_tm)
     if op == 612:
         t = _new(a)
         for o in a[3:]:
@@ -93,6 +108,19 @@ def impl(op, a):
         sp = t.to_space_packet().pack()
         raw = t.pack()
         return [list(sp), list(raw), [t.packet_len]]
+    if op in (613, 614):
+        # decode from a buffer that may continue behind the packet, then EVERY observable of the decoded object
+        # (614: through the Service17Tm wrapper)
+        tl = a[1][0]
+        if op == 613:
+            u = _unpack(bytes(a[0]), tl); packer = u
+        else:
+            packer = _unpack17(bytes(a[0]), tl); u = packer.pus_tm
+        first = _fields(u)
+        p1 = u.pack(recalc_crc=False)          # "CRC was previous calculated and no fields were changed"
+        p2 = packer.pack()
+        w = _unpack(bytes(a[0][:u.packet_len]), tl)
+        return first + [list(p1), list(p2), [int(u == w), int(w == u)]] + _fields(u)
     if op == 620:
         return _hist(a)
     raise RuntimeError("bad op")
@@ -105,29 +133,30 @@ def _make(p, stamp, src, owned):
     """returns (PusTm, Service17Tm wrapper or None)"""
     path, service, subservice, apid, count, msgcnt, ref, dest, version, kind, ptype, shf, flags, dlen = p
     if path == 0:
-        return PusTm(service=service, subservice=subservice, timestamp=owned.give(stamp, kind), source_data=owned.give(src, kind),
-                     apid=apid, seq_count=count, message_counter=msgcnt, space_time_ref=ref, destination_id=dest,
-                     packet_version=version), None
+        return core.build(PusTm, service=service, subservice=subservice, timestamp=owned.give(stamp, kind),
+                          source_data=owned.give(src, kind), apid=apid, seq_count=count, message_counter=msgcnt,
+                          space_time_ref=ref, destination_id=dest, packet_version=version), None
     if path == 2:
         h = _mk_sph(ptype, apid, count, dlen, shf, flags, version)
-        sh = PusTmSecondaryHeader(service, subservice, owned.give(stamp, kind), msgcnt, dest, ref)
-        return PusTm.from_composite_fields(h, sh, owned.give(src, kind)), None
+        sh = _sec_hdr(service, subservice, owned.give(stamp, kind), msgcnt, dest, ref)
+        return core.build(PusTm.from_composite_fields, sp_header=h, sec_header=sh, tm_data=owned.give(src, kind)), None
     if path in (3, 5):
-        raw = PusTm(service=service, subservice=subservice, timestamp=bytes(stamp), source_data=bytes(src), apid=apid,
-                    seq_count=count, message_counter=msgcnt, space_time_ref=ref, destination_id=dest, packet_version=version).pack()
+        raw = core.build(PusTm, service=service, subservice=subservice, timestamp=bytes(stamp), source_data=bytes(src), apid=apid,
+                         seq_count=count, message_counter=msgcnt, space_time_ref=ref, destination_id=dest,
+                         packet_version=version).pack()
         buf = bytes(raw) if kind == 0 else bytearray(raw)
         if path == 3:
-            t, w = PusTm.unpack(buf, len(stamp)), None
+            t, w = _unpack(buf, len(stamp)), None
         else:
-            w = Service17Tm.unpack(buf, len(stamp)); t = w.pus_tm
+            w = _unpack17(buf, len(stamp)); t = w.pus_tm
         if kind != 0:
             for i in range(len(buf)):
                 buf[i] ^= 0xFF
             buf.extend(b"\x5a" * 7)
         return t, w
     if path == 4:
-        w = Service17Tm(apid=apid, subservice=subservice, timestamp=owned.give(stamp, kind), ssc=count,
-                        source_data=owned.give(src, kind), packet_version=version, space_time_ref=ref, destination_id=dest)
+        w = core.build(Service17Tm, apid=apid, subservice=subservice, timestamp=owned.give(stamp, kind), ssc=count,
+                       source_data=owned.give(src, kind), packet_version=version, space_time_ref=ref, destination_id=dest)
         return w.pus_tm, w
     if path == 6:
         return PusTm(service, subservice, owned.give(stamp, kind)), None
@@ -200,17 +229,17 @@ def _hist_op(st, o, owned):
     if k == 11: t.seq_flags = _enum(SequenceFlags, o[1]); return []
     if k == 22: t.pus_tm_sec_header.timestamp = bytes(o[1:]); return []
     if k == 23: t.space_packet_header = _mk_sph(*o[1:8]); return []
-    if k == 24: t.pus_tm_sec_header = PusTmSecondaryHeader(o[1], o[2], bytes(o[6:]), o[3], o[4], o[5]); return []
+    if k == 24: t.pus_tm_sec_header = _sec_hdr(o[1], o[2], bytes(o[6:]), o[3], o[4], o[5]); return []
     if k == 25: return [[int(t == st["t0"]), int(st["t0"] == t)]]
     if k == 26:
-        raw = t.pack(); u = PusTm.unpack(bytes(raw), len(t.pus_tm_sec_header.timestamp)); return [[int(u == t)]] + _fields(u)
+        raw = t.pack(); u = _unpack(bytes(raw), len(t.pus_tm_sec_header.timestamp)); return [[int(u == t)]] + _fields(u)
     if k == 27:
         raw = t.pack(); tl = len(t.pus_tm_sec_header.timestamp)
         buf = bytes(raw) if len(o) < 2 or o[1] % 2 == 0 else bytearray(raw)
         if len(o) > 1 and o[1] >= 2:
-            st["w"] = Service17Tm.unpack(buf, tl); st["t"] = st["w"].pus_tm
+            st["w"] = _unpack17(buf, tl); st["t"] = st["w"].pus_tm
         else:
-            st["t"], st["w"] = PusTm.unpack(buf, tl), None
+            st["t"], st["w"] = _unpack(buf, tl), None
         return []
     if k == 30: _set_hdr(t, w, o[1], o[2], o[3] if len(o) > 3 else 0); return []
     if k == 31: setattr(t.pus_tm_sec_header, _SEC_ATTR[o[1]], o[2]); return []
@@ -773,6 +802,89 @@ def hardening_streams(tier, rng):
         base = _hist_params(rng, path=0, kind=1, n=2, tl=7)
         cases.append((620, base + [[9] + [0xFF] * n, [7], [10, 1, 2], [8]]))
     yield "live_object_size_sweep", "exact", cases
+    yield "crc_value_coincidences", "exact", crc_coincidence_cases(rng, big)
+    yield "decode_with_suffix_every_observable", "exact", suffix_observable_cases(rng, big)
+    yield "decoder_parameter_x_declared_length", "exact", param_length_cases(rng, big)
+
+
+# G. value coincidences of DERIVED quantities: telemetry SEARCHED (pus_common.tm_crc_coincidences) such that the CRC over
+#    the primary header / over every octet boundary up to the end of the secondary header incl. the timestamp / over
+#    blocks of the source data / over the whole packet is 0x0000 or 0xFFFF - pushed through every serialisation route
+COINCIDENCE_ROUTES = [[2], [8], [1], [7], [8], [1], [2], [1]]     # calc_crc, crc16, pack(recalc_crc=False), view, ...
+
+
+def crc_coincidence_cases(rng, big):
+    cases = []
+    found = pc.tm_crc_coincidences(rng, lens=(0, 1, 2, 7, 40, 1100) + ((300, 600, 4200) if big else ()),
+                                   stamps=(0, 1, 7, 16) if big else (0, 7))
+    found += pc.tm_crc_coincidences(rng, lens=(0, 3), stamps=(2, 8) if big else (1,))
+    if big:
+        found += pc.tm_crc_coincidences(rng, targets=(0x0001, 0x8000, 0x00FF, 0xFF00, 0x1021, 0x1D0F), lens=(0, 2, 9), stamps=(0, 7))
+    for a, p, t in found:
+        tl, n = len(a[1]), len(a[2])
+        for op in (601, 604, 605):
+            cases.append((op, a))
+        cases.append((612, a + [[2]]))
+        for path, kind in ((0, 1), (3, 0), (2, 0)):
+            base = [[path] + a[0] + [kind, 0, 1, 3, 8 + tl + n], a[1], a[2]]
+            cases.append((620, base + [list(o) for o in COINCIDENCE_ROUTES]))
+        pkt = _layout_fast(*a[0], a[1], a[2])
+        cases.append((602, [pkt, [tl]])); cases.append((613, [pkt + pc.rbytes(rng, rng.choice([0, 2, 5])), [tl]]))
+    # the same through the Service17Tm wrapper (service 17, message counter 0 are prescribed by the wrapper)
+    for a, p, t in pc.tm_crc_coincidences(rng, lens=(0, 2, 40), stamps=(0, 7), service=17, msgcnt=0, fixed=(7, 9)):
+        tl, n = len(a[1]), len(a[2])
+        cases.append((610, [[a[0][2], a[0][1], a[0][3], a[0][7], a[0][5], a[0][6]], a[1], a[2]]))
+        for path, kind in ((4, 1), (5, 0)):
+            base = [[path] + a[0] + [kind, 0, 1, 3, 8 + tl + n], a[1], a[2]]
+            cases.append((620, base + [list(o) for o in COINCIDENCE_ROUTES] + [[0, 1]]))
+        pkt = _layout_fast(*a[0], a[1], a[2])
+        cases.append((611, [pkt, [tl]])); cases.append((614, [pkt + pc.rbytes(rng, rng.choice([0, 2, 5])), [tl]]))
+    return cases
+
+
+# H. a valid packet followed by further octets (fill octets of a frame, the next packet): the decoded object must be the
+#    same in every observable as when decoded from exactly its own octets
+def suffix_observable_cases(rng, big):
+    cases = []
+    pkts = valid_packets(rng, 120 if big else 40)
+    for n in (0, 1, 2, 250, 251, 505, 506, 1100) + ((4096, 65520) if big else ()):
+        tl = rng.choice([0, 7, 7, 16])
+        f = pc.rand_tm_args(rng, 1)[0]
+        pkts.append((_layout_fast(*f, pc.rbytes(rng, tl), pc.rbytes(rng, min(n, 65527 - tl))), tl))
+    for target in (0x0000, 0xFFFF, 0x00FF, 0xFF00):
+        f = pc.rand_tm_args(rng, 1)[0]
+        st = pc.rbytes(rng, 7)
+        pkts.append((_layout_fast(*f, st, _force_crc(f, st, pc.rbytes(rng, 6), target)), 7))
+    for i, (pkt, tl) in enumerate(pkts):
+        other = pkts[(i + 1) % len(pkts)][0]
+        sufs = [[], [rng.randrange(256)], [0, 0], [0xFF, 0xFF], pc.rbytes(rng, 2), [0x55] * 7, list(other), list(pkt),
+                list(pkt[-2:]), pc.rbytes(rng, rng.choice([3, 16, 300]))]
+        for sfx in (sufs if big or len(pkt) < 300 else sufs[:5]):
+            cases.append((613 if (i + len(sfx)) % 3 else 614, [pkt + sfx, [tl]]))
+    return cases
+
+
+# I. decoder parameter x declared length x continuation: a telemetry packet with a VALID CRC over its declared length,
+#    decoded with every timestamp length 0..18 (matching or not), alone and followed by further octets
+def param_length_cases(rng, big):
+    cases = []
+    for _ in range(40 if big else 12):
+        tl = rng.choice([0, 0, 1, 2, 7, 7, 8, 16])
+        a = pc.rand_tm_args(rng, 1, tl)
+        a[2] = pc.rbytes(rng, rng.choice([0, 0, 1, 2, 3, 5, 9]))
+        pkt = _layout_fast(*a[0], a[1], a[2])
+        nxt = _layout_fast(*pc.rand_tm_args(rng, 1)[0], pc.rbytes(rng, 7), pc.rbytes(rng, rng.randrange(12)))
+        for tl2 in range(0, 19):
+            for sfx in ([], nxt, pc.rbytes(rng, 2), pc.rbytes(rng, 24), [0] * 20):
+                op = (602, 613, 611, 614)[(tl2 + len(sfx)) % 4]
+                cases.append((op, [pkt + sfx, [tl2]]))
+        # declared lengths 7 .. 15 + 18 + 2 with the CRC recomputed, so that the mutation reaches the code behind the check
+        for L in range(7, 36):
+            q = pc.repair_pus_crc(pkt[:4] + [0, L - 7] + pkt[6:], L)
+            for tl2 in ((0, 1, 2, 7, 8, 16) if not big else range(0, 19)):
+                for sfx in ([], nxt, pc.rbytes(rng, 30)):
+                    cases.append(((602, 613, 611, 614)[(tl2 + L + len(sfx)) % 4], [q[:L] + sfx, [tl2]]))
+    return cases
 
 
 _SPEC_SIZES = set(NEAR_256) | {4096, 65520}
@@ -831,11 +943,16 @@ def oracle(case, ires, sres):
             if err or ires[1] != exp:
                 return ("C03/Service17Tm.pack/layout", "%s -> %s" % (a, ires))
         return None
-    if op in (602, 611):
+    if op in (602, 611, 613, 614):
         b, tl = a[0], a[1][0]
+        ent = "PusTm.unpack" if op in (602, 613) else "Service17Tm.unpack"
         if err:
             if code in (20, 21, 22, 23, 24, 25, 99):
                 return ("C03/PusTm.unpack/undocumented-error", "%s on %s" % (ires, b[:16]))
+            n = b[4] * 256 + b[5] + 7 if len(b) >= 6 else None
+            if n is not None and 15 + tl <= n <= len(b) and b[6] >> 4 == 2 and fcrc(b[:n]) == 0:
+                return ("C03/%s/valid-refused" % ent, "a valid telemetry packet of %d octets (timestamp_len %d) followed by %d further octets is refused: %s" % (
+                    n, tl, len(b) - n, ires))
             return None
         n = b[4] * 256 + b[5] + 7
         if n < 6 + 7 + tl + 2:
@@ -846,6 +963,20 @@ def oracle(case, ires, sres):
         if ires[3] != b[13:13 + tl] or ires[4] != b[13 + tl:n - 2] or ires[6] != [n] or \
                 ires[2] != [2, b[6] & 15, b[7], b[8], b[9] * 256 + b[10], b[11] * 256 + b[12]]:
             return ("C03/PusTm.unpack/fields", "decoded %s from %s" % (ires[1:5], b[:24]))
+        unit = b[:n]
+        where = "telemetry of %d octets (timestamp_len %d) decoded from a buffer of %d octets (%s behind it)" % (n, tl, len(b), b[n:n + 8])
+        if ires[5] != [1] + unit[-2:]:
+            return ("C03/%s/crc16-not-the-trailer" % ent, "%s: crc16 reads %s, the packet's trailer is %s" % (where, ires[5], unit[-2:]))
+        if op in (613, 614):
+            if ires[7] != unit:
+                return ("C03/%s-pack/recalc-false-differs" % ent, "%s: pack(recalc_crc=False) gives ... %s, the accepted octets end in %s" % (
+                    where, ires[7][-4:], unit[-4:]))
+            if ires[8] != unit:
+                return ("C03/%s-pack/roundtrip" % ent, "%s: re-pack ... %s != accepted octets ... %s" % (where, ires[8][-4:], unit[-4:]))
+            if ires[9] != [1, 1]:
+                return ("C03/%s/suffix-changes-equality" % ent, "%s: not equal to the telemetry decoded from exactly its octets: %s" % (where, ires[9]))
+            if ires[10:16] != ires[1:7]:
+                return ("C03/PusTm.pack/changes-decoded-object", "%s: fields after the two packs %s, before %s" % (where, ires[10:16], ires[1:7]))
         return None
     if op == 603:
         b = a[0]
@@ -891,7 +1022,7 @@ def oracle(case, ires, sres):
 def neighbours(case):
     op, a = case
     out = []
-    if op in (602, 603, 611):
+    if op in (602, 603, 611, 613, 614):
         for i in range(min(15, len(a[0]))):
             for bit in (0, 4, 7):
                 l = list(a[0]); l[i] ^= 1 << bit; out.append((op, [l, a[1]]))
@@ -909,4 +1040,15 @@ DECODERS = [
      "valid": lambda rng: [p[6:20] for p, _ in valid_packets(rng, 10, 7)], "declared_len": lambda b: 14},
     {"op": 609, "name": "PusTm.service_from_bytes", "extra": [], "valid": lambda rng: [p for p, _ in valid_packets(rng, 10, 7)],
      "declared_len": None},
+    # every observable of the decoded object (crc16, pack with and without recalculation, equality), see ops 613 / 614
+    {"op": 613, "name": "PusTm.unpack+views", "extra": [[7]], "valid": lambda rng: [p for p, _ in valid_packets(rng, 12, 7)],
+     "declared_len": lambda b: b[4] * 256 + b[5] + 7},
+    {"op": 614, "name": "Service17Tm.unpack+views", "extra": [[2]], "valid": lambda rng: [p for p, _ in valid_packets(rng, 12, 2)],
+     "declared_len": lambda b: b[4] * 256 + b[5] + 7},
 ]
+# the units of these decoders end in a CRC-16 trailer over the declared length ("crc": how C09 / C10 repair it after a
+# mutation); "param_variants": other values of the decoder's parameter (timestamp_len) the cross-cutting checks try
+for _d in DECODERS:
+    if _d["op"] in (602, 611, 613, 614):
+        _d["crc"] = "pus"
+        _d["param_variants"] = [[[k]] for k in range(0, 19)]
